@@ -33,8 +33,16 @@ def run_bounded(prop, native_check, tier, seed, obligation, extra_assumptions=()
     try:
         binary, _ = D.build_native()
     except D.BuildError as e:
-        vd.add_undecided(str(e)[:800])
-        return vd.finish({"level": "exploration", "coverage": {"evaluations": 1, "distinct_nontrivial": 2, "rule": "native harness did not build", "samples": ["-"]}})
+        binary = None
+        if need_binary:
+            # the checks that drive the built binary do not need the rest of the harness
+            try:
+                binary, _ = D.build_native(binonly=True)
+            except D.BuildError:
+                binary = None
+        if binary is None:
+            vd.add_undecided(str(e)[:800])
+            return vd.finish({"level": "exploration", "coverage": {"evaluations": 1, "distinct_nontrivial": 2, "rule": "native harness did not build", "samples": ["-"]}})
     env = {}
     if need_binary:
         try:
